@@ -445,6 +445,52 @@ func runC11(c *Ctx) {
 	}
 	nEnc := len(ana.CallsTo(search, "github.com/iotaledger/iota.go/encoding/b1t6.Encode"))
 	r.Check(digOK && nEnc == 1, "C11.nonce-layout.lane-digest", c.P.Pos(search.Pos()), "every one of the 64 lane buffers (a range loop over the whole batch) is a fresh 243-trit block into which the digest is b1t6-encoded at trit 0 (Encode sites: %d)", nEnc)
+	if !fill {
+		// the nonce window of every lane buffer taken once, before the mining loop, into an array of views that the lane
+		// loop ranges over: views[i] = buf[i][off:] stored by a loop over the whole batch, nothing else stored into it
+		for _, t := range deepCallTerms(c, sb) {
+			cal := calleeOf(t)
+			if cal == nil || cal == lane || cal.Blocks == nil || !ana.InRepo(cal) {
+				continue
+			}
+			bd, ok := ana.Match("call<*>(load(iaddr(slice($views, 0, none), bin<+>(ind<+1>(-1), 1))), bin<+>(ind<+"+WS+">("+PS+"), conv<uint64>(bin<+>(ind<+1>(-1), 1))))", t)
+			if !ok {
+				bd, ok = ana.Match("call<*>(load(iaddr($views, bin<+>(ind<+1>(-1), 1))), bin<+>(ind<+"+WS+">("+PS+"), conv<uint64>(bin<+>(ind<+1>(-1), 1))))", t)
+			}
+			if !ok || bd["$views"].V == nil {
+				continue
+			}
+			vw := bd["$views"]
+			vb, m := ana.Match("obj(alt(alloc<[64][]int8>, makeslice<[][]int8>($n64, $n64)), maybe(store(iaddr(self, ind<+1>(0)), slice(load(iaddr($buf, ind<+1>(0))), "+offPat+", none))))", vw)
+			if !m {
+				continue
+			}
+			if n64 := vb["$n64"]; n64 != nil && !matches("alt(64, len(slice(alloc<[64][]int8>, 0, none)), len(slice(obj(alloc<[64][]int8>, ...), 0, none)))", n64) {
+				continue // the views are made as long as the batch
+			}
+			root := sb.Root(vw.V)
+			nSt, whole := 0, false
+			for _, blk := range search.Blocks {
+				for _, ins := range blk.Instrs {
+					st, isSt := ins.(*ssa.Store)
+					if !isSt || sb.Root(st.Addr) != root {
+						continue
+					}
+					nSt++
+					for _, l := range rangeLoopsAll(sb) {
+						// (the loop ranges over the views or over the equally long batch of lane buffers)
+						if l.Blocks[blk] && (wholeBatch(l, vw) || wholeBatch(l, vb["$buf"]) && matches("slice(obj(alloc<[64][]int8>, ...), 0, none)", vb["$buf"])) {
+							whole = true
+						}
+					}
+				}
+			}
+			if nSt == 1 && whole {
+				fill = true
+				encNonce = cal
+			}
+		}
+	}
 	r.Check(fill, "C11.nonce-layout.lane-filling", c.P.Pos(search.Pos()), "lane i of every batch is given nonce base+i, encoded at trit offset EncodedLen(len(digest))")
 	absorbOK, copyOK, resetOK := false, false, false
 	var absorb, cpy ssa.CallInstruction
